@@ -510,6 +510,20 @@ func (r *checkRun) run() int {
 				continue
 			}
 			cv.replay = res
+			// a schedule-dependent harness may reproduce the violation on another path's model
+			for _, alt := range v.Alt {
+				if res == nil || res.Result == "violated" || res.Result == "panic" {
+					break
+				}
+				c2 := *c
+				c2.Model = alt
+				_, res2, err2 := r.replayNative(&c2)
+				if err2 == nil && res2 != nil && (res2.Result == "violated" || res2.Result == "panic") {
+					b2, _ := json.MarshalIndent(&c2, "", " ")
+					os.WriteFile(cv.cexPath, b2, 0o644)
+					cv.replay, res = res2, res2
+				}
+			}
 		}
 	}
 	// translator validation: replay sample path models natively, compare observations
